@@ -95,6 +95,11 @@ mod error;
 mod iter;
 mod mem_size;
 
+#[cfg(feature = "verif-hooks")]
+mod verif_hooks;
+#[cfg(feature = "verif-hooks")]
+pub use verif_hooks::{VerifNode, VerifWalk, VerifWalkEnd};
+
 /// An LRU (least-recently-used) cache that stores values associated with keys.
 /// Insertion, retrieval, and removal all have average-case complexity in O(1).
 /// The cache has an upper memory bound, which is set at construction time.
